@@ -853,6 +853,21 @@ def wrapper_rule(ctx):
                         pd.append(M.Problem(KIND_RULE.get(pr.kind, pr.kind), pr.construct, pr.what))
                 except Unknown as u:
                     o.unknown = u
+            # whatever object is returned, it is the processed mesh for the caller: when its face list can be read on the template it must
+            # no longer be the face list of the input (the triangle whose three vertices have degree two is still there, nothing was added)
+            # although the editing block did split that triangle on other data (block working on a copy + `return <input>`: a silent no-op)
+            if isinstance(r, Obj) and "__inst__" not in r.fields and isinstance(r.fields.get("faces"), Obj):
+                try:
+                    rf = [tuple(f) for f in w.data(r.fields["faces"])]
+                except Unknown:
+                    rf = None
+                if rf is not None and rf == [tuple(f) for f in F]:
+                    p = M.Problem("C13-H1", "split_double_boundary_edges_triangles returns a mesh in which the double border triangle is not split",
+                                  f"the editing block refines other data than the object returned ({'the input mesh' if r is mesh else repr(r)}): the "
+                                  f"returned mesh still has exactly the input faces {[M.fmt_face(f) for f in rf[:3]]}, the fan around the centre of the "
+                                  "triangle is only in the editor's mesh - the function is a silent no-op for its caller")
+                    p.node = o.ev.last_return.get(id(fn))
+                    ph.append(p)
             if r is mesh:
                 p = M.Problem("C13-H1", "split_double_boundary_edges_triangles returns its input mesh instead of the mesh re-instantiated by the editing block",
                               "after the editing block the refined, valid mesh is the editor's; the object passed in has new faces but stale "
